@@ -279,7 +279,7 @@ def shape_exprs(k, r, quick):
     """operands as constants, constant shift counts, conversions, nested sub-expressions"""
     es = []
     for o in BINSYM:
-        for c in consts(k, r, 3 if quick else 8):
+        for c in consts(k, r, 3 if quick else 5):
             if not (o in ("Quo", "Rem") and c == 0):
                 es.append(("Bin", k, o, ("X",), ("K", k, c)))
             es.append(("Bin", k, o, ("K", k, c), ("Y",)))
@@ -298,7 +298,7 @@ def shape_exprs(k, r, quick):
             es.append(("Conv", k, k2, ("X",)))
             es.append(("Conv", k2, k, ("Conv", k, k2, ("X",))))
             es.append(("Conv", k2, k, ("Bin", k2, r.choice(["Add", "Mul", "Sub", "Xor"]), ("Conv", k, k2, ("X",)), ("Conv", k, k2, ("Y",)))))
-    n = 40 if quick else 300
+    n = 40 if quick else 150
     for _ in range(n):
         es.append(nested(k, k, r, r.choice([2, 2, 3, 3, 4])))
     return es
